@@ -423,6 +423,16 @@ impl<'a> Ctx<'a> {
             self.violation("correspondence", "H14-vs-scope", what, case.origin.clone(), false);
         }
         self.report.hist("in_H14", if in_h { "inside" } else { in_scope.err().unwrap_or("outside") });
+        // every JSON / JSON5 / TOML document must satisfy the data-only hypothesis of the corollary
+        if matches!(case.origin["format"].as_str(), Some("json") | Some("json5") | Some("toml")) {
+            let j = self.model.ask(&format!("c14.J {}", d_sexp));
+            if j == "true" {
+                self.report.count("jsonlike_documents", 1);
+            } else {
+                let what = format!("JsonLike is {} on a {} document", j, case.origin["format"]);
+                self.violation("correspondence", "JsonLike-covers-format", what, case.origin.clone(), false);
+            }
+        }
         // oracle first: a failure of the property itself is the stronger finding
         let oracle = if case.origin["kind"] == "serde" && !in_h {
             Ok(())
